@@ -537,6 +537,9 @@ func checkC05Rest(c *core.Ctx) {
 		}
 	}
 
+	payloadProgress(c, c.Rule("R5.10", "D", "a DecodingLayer hands the next one data[n:] with n >= 1 (= R1.6): DecodeLayers loops on LayerPayload(), so a zero advance never ends where NewPacket reports a layer sequence"))
+	crossFieldReset(c, c.Rule("R5.11", "T", "no slice field of the receiver is reset to a re-slice of a different field and then appended to"))
+	putRegistersEveryType(c, c.Rule("R5.12", "T", "every DecodingLayerContainer.Put registers the decoder for each of its layer types"))
 	r9 := c.Rule("R5.9", "T", "DecodeFromBytes reads no integer/bool field of its receiver before storing it in the same call")
 	staleFieldReads(c, r9)
 
@@ -1199,4 +1202,198 @@ func reachesWithoutStore(from ssa.Instruction, ld *ssa.UnOp, fpath string, pathO
 		work = append(work, b.Succs...)
 	}
 	return false
+}
+
+// crossFieldReset (R5.11): DecodeFromBytes never sets a slice field of its
+// receiver to a re-slice of a *different* field of the receiver while it also
+// appends to the first field: the two lists then share one backing array and
+// the appended elements overwrite the other list (x.B = x.A[:0] instead of
+// x.B = x.B[:0]).  Nothing happens on a fresh layer (both nil), only on reuse.
+func crossFieldReset(c *core.Ctx, r *core.Rule) {
+	p := c.P
+	n := 0
+	for _, d := range p.Roots().Dec {
+		fn := d.Fn
+		if d.Kind != "DecodeFromBytes" || fn.Signature.Recv() == nil || len(fn.Blocks) == 0 {
+			continue
+		}
+		appended := map[string]bool{}
+		core.Instrs(fn, func(ins ssa.Instruction) {
+			call, ok := ins.(*ssa.Call)
+			if !ok {
+				return
+			}
+			if bi, ok := call.Call.Value.(*ssa.Builtin); !ok || bi.Name() != "append" {
+				return
+			}
+			if ld, ok := call.Call.Args[0].(*ssa.UnOp); ok && ld.Op == token.MUL {
+				if pth, ok := core.RecvFieldAddrPath(fn, ld.X); ok {
+					appended[pth] = true
+				}
+			}
+		})
+		k := 0
+		core.Instrs(fn, func(ins ssa.Instruction) {
+			st, ok := ins.(*ssa.Store)
+			if !ok {
+				return
+			}
+			dst, ok := core.RecvFieldAddrPath(fn, st.Addr)
+			if !ok {
+				return
+			}
+			sl, ok := st.Val.(*ssa.Slice)
+			if !ok || sl.Max != nil {
+				return
+			}
+			ld, ok := sl.X.(*ssa.UnOp)
+			if !ok || ld.Op != token.MUL {
+				return
+			}
+			src, ok := core.RecvFieldAddrPath(fn, ld.X)
+			if !ok {
+				return
+			}
+			if _, isSl := ld.Type().Underlying().(*types.Slice); !isSl {
+				return
+			}
+			n++
+			if src != dst && appended[dst] {
+				k++
+				r.Violate(fmt.Sprintf("%s/cross-field-reset:%s<-%s#%d", core.FnKey(fn), dst, src, k), p.InstrPos(st), "field "+dst+" is set to a re-slice of field "+src+" and later appended to: on a reused layer object both lists then live in one backing array and the elements appended to "+dst+" overwrite those of "+src+", so decoding into a preallocated layer differs from decoding into a fresh one", nil)
+			}
+		})
+	}
+	c.Counts["receiver_slice_resets"] = n
+	if n < 10 {
+		r.Missing("decode/receiver slice resets", fmt.Sprintf("only %d found", n))
+	} else {
+		r.OK("decode/resets-stay-in-their-field", "", fmt.Sprintf("%d re-slices of receiver slice fields stored back into receiver fields; none into a different field that is appended to", n))
+	}
+}
+
+// putRegistersEveryType (R5.12): each DecodingLayerContainer.Put has a loop
+// over d.CanDecode().LayerTypes() in which every iteration, on every path,
+// stores d into the container (element store, map update, or an element
+// literal that is appended).  A flag carried across iterations that lets an
+// iteration skip the registration loses the later types of a class decoder.
+func putRegistersEveryType(c *core.Ctx, r *core.Rule) {
+	p := c.P
+	iface := p.Iface("", "DecodingLayerContainer")
+	if iface == nil {
+		r.Missing("gopacket.DecodingLayerContainer", "interface not found")
+		return
+	}
+	puts := p.Implementations(iface, "Put", "")
+	n := 0
+	for _, fn := range puts {
+		if len(fn.Blocks) == 0 || len(fn.Params) < 2 || strings.HasSuffix(p.Pos(fn.Pos()), "_test.go") {
+			continue
+		}
+		n++
+		d := fn.Params[1]
+		registers := func(b *ssa.BasicBlock) bool {
+			for _, ins := range b.Instrs {
+				switch x := ins.(type) {
+				case *ssa.Store:
+					if x.Val == ssa.Value(d) {
+						return true
+					}
+				case *ssa.MapUpdate:
+					if x.Value == ssa.Value(d) {
+						return true
+					}
+				}
+			}
+			return false
+		}
+		// the slice of types
+		var typesVals []ssa.Value
+		core.Instrs(fn, func(ins ssa.Instruction) {
+			if cl, ok := ins.(*ssa.Call); ok && cl.Call.IsInvoke() && cl.Call.Method.Name() == "LayerTypes" {
+				typesVals = append(typesVals, cl)
+			}
+		})
+		good, ranging := false, 0
+		for _, h := range fn.Blocks {
+			// natural loop of h
+			inLoop := map[*ssa.BasicBlock]bool{}
+			var work []*ssa.BasicBlock
+			for _, pr := range h.Preds {
+				if h.Dominates(pr) {
+					work = append(work, pr)
+				}
+			}
+			if len(work) == 0 {
+				continue
+			}
+			inLoop[h] = true
+			for len(work) > 0 {
+				x := work[len(work)-1]
+				work = work[:len(work)-1]
+				if inLoop[x] {
+					continue
+				}
+				inLoop[x] = true
+				work = append(work, x.Preds...)
+			}
+			// does the loop index the types slice?
+			isRange := false
+			for b := range inLoop {
+				for _, ins := range b.Instrs {
+					if ia, ok := ins.(*ssa.IndexAddr); ok {
+						for _, tv := range typesVals {
+							if ia.X == tv {
+								isRange = true
+							}
+						}
+					}
+				}
+			}
+			if !isRange {
+				continue
+			}
+			ranging++
+			// every path body-entry -> h registers
+			escapes := false
+			seen := map[*ssa.BasicBlock]bool{}
+			var dfs func(b *ssa.BasicBlock)
+			dfs = func(b *ssa.BasicBlock) {
+				if escapes || seen[b] || !inLoop[b] {
+					return
+				}
+				if b == h {
+					escapes = true
+					return
+				}
+				seen[b] = true
+				if registers(b) {
+					return
+				}
+				for _, s := range b.Succs {
+					dfs(s)
+				}
+			}
+			for _, s := range h.Succs {
+				if inLoop[s] && s != h {
+					dfs(s)
+				}
+			}
+			if !escapes {
+				good = true
+			}
+		}
+		key := core.FnKey(fn) + "/registers-every-type"
+		switch {
+		case ranging == 0:
+			r.Undecided(key, p.Pos(fn.Pos()), "no loop over CanDecode().LayerTypes() recognised")
+		case good:
+			r.OK(key, p.Pos(fn.Pos()), "a loop over the decoder's layer types stores the decoder on every path of every iteration")
+		default:
+			r.Violate(key, p.Pos(fn.Pos()), "no loop over d.CanDecode().LayerTypes() stores d on every path of every iteration: some iteration can finish without registering the decoder for its type (a condition carried over from an earlier iteration skips it), so a decoder of a multi-type class is missing for some of its types in this container while the other containers and NewPacket have it", nil)
+		}
+	}
+	if n < 3 {
+		r.Missing("gopacket/DecodingLayerContainer.Put", fmt.Sprintf("only %d implementations found", n))
+	}
 }
